@@ -5,27 +5,33 @@
 (* its scheme, and whose credentials the Authorization header carried.     *)
 (*   Confined      credentials only reach the identity they belong to      *)
 (*   NoDowngrade   no http request once the chain has used https           *)
-(*   ChainBounded  at most Bound requests per logical request              *)
+(*   ChainBounded  at most Bound consecutive redirect hops; a 401 starts   *)
+(*                 a new chain (re-authentication is not a hop)            *)
+(*   HelperSound   approve/reject only for identities the helper filled    *)
 (***************************************************************************)
 EXTENDS Integers, Sequences, TLC, Json, IOUtils
 
 Trace == ndJsonDeserialize(IOEnv.TRACE)
-Bound == 12     \* 1 + 3 redirect hops + 3 authentication attempts, doubled once by the access-mode upgrade
+Bound == 10     \* "a small fixed number of hops": the code stops at 2, net/http at 10; the driver cuts an endless chain at 50 requests
 
-VARIABLES l, n, sawHttps
-vars == <<l, n, sawHttps>>
+VARIABLES l, n, sawHttps, filled
+vars == <<l, n, sawHttps, filled>>
 E == Trace[l]
 Is(e) == l <= Len(Trace) /\ E.ev = e /\ l' = l + 1
 
-Init  == l = 1 /\ n = 0 /\ sawHttps = FALSE
-Reset == Is("reset") /\ n' = 0 /\ sawHttps' = FALSE
+Init  == l = 1 /\ n = 0 /\ sawHttps = FALSE /\ filled = {}
+Reset == Is("reset") /\ n' = 0 /\ sawHttps' = FALSE /\ filled' = {}
 Req   == /\ Is("req")
-         /\ E.auth \in {"none", E.host}                 \* Confined
-         /\ (E.scheme = "http" => ~sawHttps)            \* NoDowngrade
-         /\ n' = n + 1 /\ n' <= Bound                   \* ChainBounded
-         /\ sawHttps' = (sawHttps \/ E.scheme = "https")
-Done  == Is("done") /\ UNCHANGED <<n, sawHttps>>
-Next  == Reset \/ Req \/ Done
+         /\ E.auth \in {"none", E.host}                                  \* Confined
+         /\ LET chained == E.after = "redir" IN
+            /\ (E.scheme = "http" /\ chained => ~sawHttps)               \* NoDowngrade
+            /\ n' = (IF chained THEN n + 1 ELSE 0) /\ n' <= Bound        \* ChainBounded
+            /\ sawHttps' = ((chained /\ sawHttps) \/ E.scheme = "https")
+         /\ UNCHANGED filled
+Fill  == Is("fill") /\ filled' = filled \cup {E.host} /\ UNCHANGED <<n, sawHttps>>
+Judge == (Is("approve") \/ Is("reject")) /\ E.host \in filled /\ UNCHANGED <<n, sawHttps, filled>>   \* HelperSound
+Done  == Is("done") /\ UNCHANGED <<n, sawHttps, filled>>
+Next  == Reset \/ Req \/ Fill \/ Judge \/ Done
 Spec  == Init /\ [][Next]_vars
 Accepted == TLCGet("stats").diameter - 1 = Len(Trace)
 =============================================================================
